@@ -155,6 +155,20 @@ StepY(m) ==
   IN
   IF IsA(g, "!") THEN CutTo([m0 EXCEPT !.condcut = @ \/ (fr.cb \in m.condb)], fr.cb, rest)
   ELSE IF IsF(g, "$cut", 1) THEN CutTo(m0, g.a[1].i, rest)
+  (* if-then-else and if-then: as in Prolog.tla (the condition runs with its own cut barrier, ISO 7.8.8); *)
+  (* the barrier is remembered in m.condb for the classification flag condcut                              *)
+  ELSE IF IsF(g, ";", 2) /\ IsF(Deref(m.st, g.a[1]), "->", 2) THEN
+       LET l == Deref(m.st, g.a[1]) IN
+       [m0 EXCEPT !.cps = Append(m.cps, CP("alt", <<F(g.a[2], fr.cb)>> \o rest, m.st, None, None)),
+                  !.gs = <<F(l.a[1], h0 + 1), F(C1("$cut", I(h0)), 0), F(l.a[2], fr.cb)>> \o rest,
+                  !.condb = @ \cup {h0 + 1}]
+  ELSE IF IsF(g, "->", 2) THEN
+       [m0 EXCEPT !.cps = Append(m.cps, CP("alt", <<F(Fail, fr.cb)>> \o rest, m.st, None, None)),
+                  !.gs = <<F(g.a[1], h0 + 1), F(C1("$cut", I(h0)), 0), F(g.a[2], fr.cb)>> \o rest,
+                  !.condb = @ \cup {h0 + 1}]
+  (* the Context of a system error is implementation defined: unifying two of them is not specified *)
+  ELSE IF IsF(g, "=", 2) /\ HasCtx(Apply(m.st, g.a[1])) /\ HasCtx(Apply(m.st, g.a[2])) THEN
+       Post(m, Step([m EXCEPT !.unspec = TRUE]))
   ELSE IF IsF(g, "setup_call_cleanup", 3) THEN
        [m0 EXCEPT !.gs = <<F(C1("once", g.a[1]), 0), F(C2("$scc_install", g.a[2], g.a[3]), 0)>> \o rest]
   ELSE IF IsF(g, "call_cleanup", 2) THEN
